@@ -32,11 +32,16 @@
 
     Findings.
     - (refuted) Reset cannot be part of the class: see Part 8 ([r2e_reset_refuted_handles]: handles issued before
-      a Reset alias later entities -- the documented contract of Reset; [r2e_reset_refuted_table]: a relation
-      call rejected by createTable AFTER its archetype was created leaves an archetype without table, and a later
-      Reset panics half-way and corrupts the world -- confirmed on the Go code: Unsafe.NewEntityRel([A], A->zero)
-      panics, NewEntity(B), Reset() panics "index out of range [0] with length 0", and afterwards a query over B
-      yields the stale row and the new entity). [r2e_reset_step_partial] is the single-step statement that holds. *)
+      a Reset alias later entities -- the documented contract of Reset).
+    - (defect found here, REPAIRED in /repo) a relation call rejected by createTable AFTER its archetype was
+      created (e.g. a relation named for a plain component) left an archetype without table, and a later Reset
+      panicked half-way and corrupted the world (confirmed on the Go code: Unsafe.NewEntityRel([A], A->zero)
+      panicked, NewEntity(B), Reset() panicked "index out of range [0] with length 0", and afterwards a query over
+      B yielded the stale row and the new entity). createArchetype now creates the table of an archetype without
+      relation components together with the archetype; [r2e_reset_refuted_table] is the regression example, and
+      Part 9 proves the clause [archs_tabled_norel] over all covered histories ([Inv2T], [step_inv2T],
+      [reachable_inv2T]) and that Reset succeeds in every state of such a history ([r2e_reset_step],
+      [reachable_reset_succeeds]; [r2e_reset_step_partial] is the statement for arbitrary [Inv2] states). *)
 From Ark Require Import Model.Base Model.Mask Model.Pool Model.Util Model.World Model.Run.
 From Ark Require Import Proofs.TableProofs Proofs.MaskProofs Proofs.Hoare Proofs.WF Proofs.StorageA Proofs.StorageBDefs
   Proofs.StorageB_sb1 Proofs.StorageB_sb2 Proofs.StorageB_sb3 Proofs.LockWorld Proofs.StorageC Proofs.RelProofs Proofs.BatchProofs
@@ -220,21 +225,15 @@ Proof.
   intros s0. unfold modify. cbn [state_of]. r2e_fk_mod.
 Qed.
 
-Lemma r2e_fkp_create_archetype : forall m, r2e_fkp (create_archetype m).
+Lemma r2e_fkp_create_archetype_bare : forall m, r2e_fkp (create_archetype_bare m).
 Proof.
-  intros m. unfold create_archetype. apply r2e_fkp_getbind. intros s _.
+  intros m. unfold create_archetype_bare. apply r2e_fkp_getbind. intros s _.
   unfold bind, put, ret. cbn [state_of].
   split; [unfold side_same; cbn; repeat split|]. split; [unfold frame_user; cbn; repeat split|]. split; [|reflexivity].
   intros aid a' k Ha Hk. cbn in Ha.
   apply sa_nth_error_snoc in Ha. destruct Ha as [[_ Ha]|[_ ->]].
   - exists a'. split; assumption.
   - cbn in Hk. discriminate.
-Qed.
-
-Lemma r2e_fkp_find_or_create_arch : forall m, r2e_fkp (find_or_create_arch m).
-Proof.
-  intros m. unfold find_or_create_arch. apply r2e_fkp_getbind. intros s.
-  destruct (find_arch s m); [apply r2e_fk_refl|apply r2e_fkp_create_archetype].
 Qed.
 
 (** AddTable never leaves or creates an empty list under a key it touches *)
@@ -273,6 +272,19 @@ Proof.
   all: try solve [apply r2e_fkp_ro; unfold check_rel; ro].
   all: try (apply r2e_fk_modA; intros ? ? Hk; first [exact Hk|apply (r2e_arch_add_table_E _ _ _ _ Hk)]).
   all: try (intros s0; unfold modify; cbn [state_of]; r2e_fk_mod).
+Qed.
+
+(* createArchetype (as repaired): the archetype record, then the table of a relation-free archetype *)
+Lemma r2e_fkp_create_archetype : forall m, r2e_fkp (create_archetype m).
+Proof.
+  intros m. unfold create_archetype. r2e_fk_tac.
+  all: first [apply r2e_fkp_create_archetype_bare|apply r2e_fkp_create_table].
+Qed.
+
+Lemma r2e_fkp_find_or_create_arch : forall m, r2e_fkp (find_or_create_arch m).
+Proof.
+  intros m. unfold find_or_create_arch. apply r2e_fkp_getbind. intros s.
+  destruct (find_arch s m); [apply r2e_fk_refl|apply r2e_fkp_create_archetype].
 Qed.
 
 Lemma r2e_ro_find_exact : forall tabs rels, readonly (fun s => find_exact s tabs rels).
@@ -2334,23 +2346,31 @@ Qed.
 
 (** ** Reset
 
-    (refuted) [step_inv2] / [reachable_inv2] with [OReset] in the class. Two independent reasons:
+    (refuted) [step_inv2] / [reachable_inv2] with [OReset] in the class:
 
     1. Reset hands out the ids and generations again from the start, so a handle issued BEFORE a Reset can
        pass the generation check later without denoting a stored entity ([issued_ok] does not survive a
        Reset, whatever bound one chooses): [r2e_reset_refuted_handles] below; after the last step a table
        has a target that is not stored ([r2_c_targets_ok], check 29, fails; one step later also the flags,
        check 28). This is the documented contract of World.Reset (all handles become invalid), not a defect.
-    2. Reset needs every archetype WITHOUT relation components to have its table ([D_reset_spec] of
-       Rel2Maint, [reset_fails_without_table]); a creation / Add / Exchange whose relation list is rejected
-       by createTable (e.g. it names a non-relation component) AFTER the archetype was created leaves such
-       an archetype behind (the invariant holds there: [step_inv2]); a later Reset panics half-way, after
-       the entity index and the pool were cleared, and rows of later archetypes survive: [r2e_reset_refuted_table]
-       ([r2_w_rows], check 9, fails). The same archetype makes unregistered-filter queries panic.
+    2. (REPAIRED; formerly a second, independent reason.) Reset needs every archetype WITHOUT relation
+       components to have its table ([D_reset_spec] of Rel2Maint, [reset_fails_without_table]). Before the
+       repair of createArchetype a creation / Add / Exchange whose relation list was rejected by createTable
+       (e.g. it named a non-relation component) AFTER the archetype had been created left such an archetype
+       behind; a later Reset panicked half-way, after the entity index and the pool were cleared, and rows of
+       later archetypes survived; the same archetype made unregistered-filter queries panic. This defect of
+       the Go code was found by the proof attempt and repaired in /repo: createArchetype creates the table of
+       an archetype without relation components together with the archetype. [r2e_reset_refuted_table] is
+       kept as a regression example (every check holds after every step of the former counterexample), and
+       the clause "every archetype without relation components has its table" ([archs_tabled_norel]) is now
+       proved for every state of a covered history: Part 9, [step_tabled2] / [reachable_inv2T]; hence Reset
+       SUCCEEDS in every such state ([r2e_reset_step], [reachable_reset_succeeds]).
 
-    (partial) What is true: [step_inv2] / [reachable_inv2] for the class without Reset, and the
-    single-step theorem [r2e_reset_step_partial] for a state of such a history in which every archetype
-    without relation components has its table. *)
+    What is true: [step_inv2] / [reachable_inv2] (and [step_inv2T] / [reachable_inv2T]) for the class without
+    Reset; the single-step theorem [r2e_reset_step_partial] for any state satisfying [Inv2] in which every
+    archetype without relation components has its table, and [r2e_reset_step] for the states of covered
+    histories, where that hypothesis is part of the invariant. *)
+(* [r2e_tabled] is [archs_tabled_norel] of WF.v (kept under its old name). *)
 Definition r2e_tabled (s : W) : Prop :=
   forall aid a, nth_error (w_archs s) aid = Some a -> a_numrel a = 0 -> a_tables a <> [].
 
@@ -2371,9 +2391,19 @@ Example r2e_reset_refuted_handles :
   [(0, []); (0, []); (0, []); (0, []); (0, []); (0, []); (0, []); (0, []); (0, []); (0, [29%nat]); (0, [28%nat])].
 Proof. vm_compute. reflexivity. Qed.
 
+(** REGRESSION example (the name is kept; before the repair this was a refutation). The script is the one with
+    which the proof attempt found the defect: a creation that names the plain component 0 as a relation, in the
+    world where archetype {0} does not exist yet; then an entity in another archetype; Reset; a creation. Before
+    the repair of createArchetype the trace was [(1, []); (0, []); (1, [9]); (0, [9])]: the first call panicked
+    (ENotRelation from createTable) and left archetype {0} without table, Reset panicked half-way and the rows
+    clause of the invariant (check 9) failed from then on. The defect was repaired in /repo (createArchetype
+    creates the table of an archetype without relation components together with the archetype); now the first
+    call is accepted silently (GetTable ignores relation arguments for such an archetype, as it always did when
+    the table existed, see [r2a_plan_refuted_nonrelation]), Reset succeeds and every check holds after every
+    step. *)
 Example r2e_reset_refuted_table :
   Rel2Check.r2_trace Rel2Check.r2_cfg (init_world Rel2Check.r2_cfg) [[2; 1;0; 1; 0;-1]; [1; 1;1]; [13]; [0]] =
-  [(1, []); (0, []); (1, [9%nat]); (0, [9%nat])].
+  [(0, []); (0, []); (0, []); (0, [])].
 Proof. vm_compute. reflexivity. Qed.
 
 (** ** The theorems are not vacuous: a history with well-formed and malformed relation lists *)
@@ -2399,7 +2429,9 @@ Definition r2e_script : list (list Z) :=
    [2; 1;0; 1; 0;1];              (* malformed: names the plain component 0; the table exists: accepted *)
    [2; 1;3; 2; 3;0; 3;1];         (* malformed: component named twice: rejected *)
    [2; 1;3; 1; 4;0];              (* malformed: names a component that is not added: rejected *)
-   [2; 1;1; 1; 1;0];              (* malformed, the archetype is new: rejected, archetype without table left behind *)
+   [2; 1;1; 1; 1;0];              (* malformed, the archetype is new: accepted as well since createArchetype creates the
+                                     table of a relation-free archetype itself (before the repair: rejected by createTable,
+                                     and the archetype was left behind without table) *)
    [6; 0; 1;4; 1; 4;1];           (* Add relation 4 -> handle 1 to handle 0 *)
    [6; 1; 1;3; 1; 3;9];           (* unknown handle *)
    [10; 3; 1; 3;1];               (* SetRelations of the child *)
@@ -2416,7 +2448,7 @@ Proof. vm_compute. reflexivity. Qed.
 
 Example r2e_script_runs :
   Rel2Check.r2_flags Rel2Check.r2_cfg (init_world Rel2Check.r2_cfg) r2e_script =
-  [0;0;0; 0; 0; 1; 1; 1; 0; 1; 0; 1; 0;0; 0; 0; 0; 1; 0;0;0;0;0;0;0;0;0;0].
+  [0;0;0; 0; 0; 1; 1; 0; 0; 1; 0; 1; 0;0; 0; 0; 0; 1; 0;0;0;0;0;0;0;0;0;0].
 Proof. vm_compute. reflexivity. Qed.
 
 Example r2e_script_inv : Inv2 (Properties.Common.exec Rel2Check.r2_cfg r2e_script) (length r2e_script).
@@ -2427,6 +2459,568 @@ Proof.
   - apply r2_N_small. vm_compute. reflexivity.
 Qed.
 
+(* ================================================================================================ *)
+(** * Part 9: every archetype without relation components has its table, over histories *)
+Local Close Scope Z_scope.
+
+(** [archs_tabled_norel] read through the tables: archetype [aid] is the archetype of some table. Under
+    the invariant this is the same as "its table list is not empty" ([r2e_tabled_iff]); in this form the
+    clause is monotone under everything but the creation of an archetype, because no table is ever
+    deleted or moved to another archetype. *)
+Definition r2e_has_table (s : W) (aid : nat) : Prop :=
+  exists tid t, nth_error (w_tables s) tid = Some t /\ t_arch t = aid.
+
+Definition r2e_H (s : W) : Prop :=
+  forall aid a, nth_error (w_archs s) aid = Some a -> a_numrel a = 0 -> r2e_has_table s aid.
+
+Definition r2e_tmono (s s' : W) : Prop :=
+  forall tid t, nth_error (w_tables s) tid = Some t -> exists t', nth_error (w_tables s') tid = Some t' /\ t_arch t' = t_arch t.
+
+(** The frame: tables keep their archetype number; an archetype without relation components of the
+    new state was one before, or it has a table. *)
+Definition r2e_hk (s s' : W) : Prop :=
+  r2e_tmono s s' /\
+  (forall aid a', nth_error (w_archs s') aid = Some a' -> a_numrel a' = 0 ->
+     (exists a, nth_error (w_archs s) aid = Some a /\ a_numrel a = 0) \/ r2e_has_table s' aid).
+
+Lemma r2e_tmono_refl : forall s, r2e_tmono s s.
+Proof. intros s tid t H. exists t. auto. Qed.
+Lemma r2e_tmono_trans : forall s1 s2 s3, r2e_tmono s1 s2 -> r2e_tmono s2 s3 -> r2e_tmono s1 s3.
+Proof.
+  intros s1 s2 s3 H1 H2 tid t Ht. destruct (H1 tid t Ht) as (t2 & Ht2 & E2). destruct (H2 tid t2 Ht2) as (t3 & Ht3 & E3).
+  exists t3. split; [exact Ht3|congruence].
+Qed.
+Lemma r2e_has_table_mono : forall s s' aid, r2e_tmono s s' -> r2e_has_table s aid -> r2e_has_table s' aid.
+Proof. intros s s' aid HM (tid & t & Ht & Ea). destruct (HM tid t Ht) as (t' & Ht' & E). exists tid, t'. split; [exact Ht'|congruence]. Qed.
+
+Lemma r2e_hk_refl : forall s, r2e_hk s s.
+Proof. intros s. split; [apply r2e_tmono_refl|]. intros aid a Ha Hn. left. exists a. auto. Qed.
+Lemma r2e_hk_trans : forall s1 s2 s3, r2e_hk s1 s2 -> r2e_hk s2 s3 -> r2e_hk s1 s3.
+Proof.
+  intros s1 s2 s3 (M1 & A1) (M2 & A2). split; [eapply r2e_tmono_trans; eassumption|].
+  intros aid a3 Ha3 Hn3. destruct (A2 aid a3 Ha3 Hn3) as [(a2 & Ha2 & Hn2)|HT]; [|right; exact HT].
+  destruct (A1 aid a2 Ha2 Hn2) as [H|HT]; [left; exact H|right; apply (r2e_has_table_mono s2 s3 aid M2 HT)].
+Qed.
+
+Lemma r2e_hk_H : forall s s', r2e_hk s s' -> r2e_H s -> r2e_H s'.
+Proof.
+  intros s s' (M & A) H aid a' Ha' Hn'. destruct (A aid a' Ha' Hn') as [(a & Ha & Hn)|HT]; [|exact HT].
+  apply (r2e_has_table_mono s s' aid M). exact (H aid a Ha Hn).
+Qed.
+
+Lemma r2e_hk_same : forall s s', w_archs s' = w_archs s -> w_tables s' = w_tables s -> r2e_hk s s'.
+Proof.
+  intros s s' EA ET. split.
+  - intros tid t Ht. exists t. rewrite ET. auto.
+  - intros aid a Ha Hn. left. exists a. rewrite <- EA. auto.
+Qed.
+
+Definition r2e_hkp {A} (m : MW A) : Prop := r2e_pres r2e_hk m.
+
+Lemma r2e_hkp_ro : forall A (m : MW A), readonly m -> r2e_hkp m.
+Proof. intros A m H. apply (r2e_pres_ro r2e_hk r2e_hk_refl). exact H. Qed.
+Lemma r2e_hkp_bind : forall A B (m : MW A) (k : A -> MW B), r2e_hkp m -> (forall a, r2e_hkp (k a)) -> r2e_hkp (bind m k).
+Proof. intros A B m k. apply (r2e_pres_bind r2e_hk r2e_hk_trans). Qed.
+Lemma r2e_hkp_forM : forall A (l : list A) (f : A -> MW unit), (forall a, r2e_hkp (f a)) -> r2e_hkp (forM_ l f).
+Proof. intros A l f. apply (r2e_pres_forM r2e_hk r2e_hk_refl r2e_hk_trans). Qed.
+Lemma r2e_hkp_whenM : forall b m, r2e_hkp m -> r2e_hkp (whenM b m).
+Proof. intros b m. apply (r2e_pres_whenM r2e_hk r2e_hk_refl). Qed.
+Lemma r2e_hkp_getbind : forall A (k : W -> MW A), (forall s, r2e_hk s (state_of (k s s))) -> r2e_hkp (bind get k).
+Proof. intros A k. apply (r2e_pres_getbind r2e_hk). Qed.
+
+(** callbacks, event dispatch, lock: the storage is untouched *)
+Lemma r2e_hkp_sp : forall A (m : MW A), sa_sp m -> r2e_hkp m.
+Proof.
+  intros A m H s. destruct (H s) as (_ & _ & _ & _ & _ & E6 & E7 & _). apply r2e_hk_same; assumption.
+Qed.
+
+(** a [modify] that touches neither archetypes nor tables *)
+Lemma r2e_hkp_modify_same : forall f : W -> W, (forall s, w_archs (f s) = w_archs s /\ w_tables (f s) = w_tables s) ->
+  r2e_hkp (modify f).
+Proof. intros f H s. unfold modify. cbn [state_of]. destruct (H s) as (E1 & E2). apply r2e_hk_same; assumption. Qed.
+
+Lemma r2e_hk_tables_updf : forall s i (f : table -> table), (forall t, t_arch (f t) = t_arch t) ->
+  r2e_tmono s (s <| w_tables ::= updf i f |>).
+Proof.
+  intros s i f Hf tid t Ht. cbn. rewrite nth_error_updf. destruct (Nat.eqb_spec i tid) as [<-|Hne].
+  - rewrite Ht. cbn. eexists. split; [reflexivity|apply Hf].
+  - exists t. auto.
+Qed.
+
+Lemma r2e_hkp_modT : forall i f, (forall t, t_arch (f t) = t_arch t) -> r2e_hkp (modT i f).
+Proof.
+  intros i f Hf s. unfold modT, modify. cbn [state_of]. split; [apply r2e_hk_tables_updf; exact Hf|].
+  intros aid a Ha Hn. left. exists a. auto.
+Qed.
+
+Lemma r2e_hkp_modA : forall aid g, (forall a, a_numrel (g a) = a_numrel a) -> r2e_hkp (modA aid g).
+Proof.
+  intros aid g Hg s. unfold modA, modify. cbn [state_of]. split; [intros tid t Ht; exists t; auto|].
+  intros i a' Ha Hn. left. cbn in Ha. rewrite nth_error_updf in Ha. destruct (Nat.eqb_spec aid i) as [<-|Hne].
+  - destruct (nth_error (w_archs s) aid) as [a|] eqn:Ea; [|discriminate]. cbn in Ha. injection Ha as <-.
+    exists a. split; [reflexivity|]. rewrite <- Hg. exact Hn.
+  - exists a'. auto.
+Qed.
+
+(** [getT tid] followed by [setT tid t'] with a table derived from the one read *)
+Lemma r2e_hk_setT : forall s tid t t', nth_error (w_tables s) tid = Some t -> t_arch t' = t_arch t ->
+  r2e_hk s (state_of (setT tid t' s)).
+Proof.
+  intros s tid t t' Ht E. unfold setT, modT, modify. cbn [state_of]. split.
+  - intros i x Hx. cbn. rewrite nth_error_updf. destruct (Nat.eqb_spec tid i) as [<-|Hne].
+    + rewrite Hx. cbn. eexists. split; [reflexivity|]. congruence.
+    + exists x. auto.
+  - intros aid a Ha Hn. left. exists a. auto.
+Qed.
+
+Lemma r2e_hkp_getT_k : forall A tid (k : table -> MW A),
+  (forall t s, nth_error (w_tables s) tid = Some t -> r2e_hk s (state_of (k t s))) -> r2e_hkp (t <- getT tid ;; k t).
+Proof.
+  intros A tid k H s. unfold bind at 1. unfold getT, bind, get, of_opt.
+  destruct (nth_error (w_tables s) tid) as [t|] eqn:Et; cbn [state_of]; [apply H; exact Et|apply r2e_hk_refl].
+Qed.
+
+Lemma r2e_hk_bind_s : forall A B (m : MW A) (k : A -> MW B) s, r2e_hk s (state_of (m s)) -> (forall a, r2e_hkp (k a)) ->
+  r2e_hk s (state_of (bind m k s)).
+Proof.
+  intros A B m k s Hm Hk. unfold bind. destruct (m s) as [a s1|er s1]; cbn [state_of] in *; [|exact Hm].
+  apply (r2e_hk_trans s s1 _ Hm). apply Hk.
+Qed.
+
+(** the table primitives keep the archetype number *)
+Lemma r2e_arch_extend : forall t n, t_arch (tbl_extend t n) = t_arch t.
+Proof. intros. unfold tbl_extend. destruct (Nat.leb _ _); reflexivity. Qed.
+Lemma r2e_arch_alloc : forall t n, t_arch (tbl_alloc t n) = t_arch t.
+Proof. intros. unfold tbl_alloc. cbn. apply r2e_arch_extend. Qed.
+Lemma r2e_arch_add : forall t e, t_arch (snd (tbl_add t e)) = t_arch t.
+Proof. intros. unfold tbl_add. cbn. apply r2e_arch_alloc. Qed.
+Lemma r2e_arch_remove : forall t i, t_arch (snd (tbl_remove t i)) = t_arch t.
+Proof. intros. reflexivity. Qed.
+Lemma r2e_arch_reset : forall t, t_arch (tbl_reset t) = t_arch t.
+Proof. intros. reflexivity. Qed.
+Lemma r2e_arch_add_all : forall d s n, t_arch (tbl_add_all d s n) = t_arch d.
+Proof. intros. unfold tbl_add_all. cbn. apply r2e_arch_alloc. Qed.
+Lemma r2e_arch_adjust : forall t c, t_arch (tbl_adjust t c) = t_arch t.
+Proof. intros. reflexivity. Qed.
+
+Ltac r2e_hk_step :=
+  match goal with
+  | |- r2e_hkp (ret _) => apply r2e_hkp_ro, readonly_ret
+  | |- r2e_hkp (fail _) => apply r2e_hkp_ro, readonly_fail
+  | |- r2e_hkp get => apply r2e_hkp_ro, readonly_get
+  | |- r2e_hkp (guard _ _) => apply r2e_hkp_ro, readonly_guard
+  | |- r2e_hkp (of_opt _ _) => apply r2e_hkp_ro, readonly_of_opt
+  | |- r2e_hkp (getT _) => apply r2e_hkp_ro, readonly_getT
+  | |- r2e_hkp (getA _) => apply r2e_hkp_ro, r2e_ro_getA
+  | |- r2e_hkp (get_index _) => apply r2e_hkp_ro, readonly_get_index
+  | |- r2e_hkp check_locked => apply r2e_hkp_ro, sc_ro_check_locked
+  | |- r2e_hkp (arch_mask_of_table _) => apply r2e_hkp_ro, sc_ro_arch_mask
+  | |- r2e_hkp (whenM _ _) => apply r2e_hkp_whenM
+  | |- r2e_hkp (forM_ _ _) => apply r2e_hkp_forM; intros ?
+  | |- r2e_hkp (bind _ _) => apply r2e_hkp_bind; [|intros ?]
+  | |- r2e_hkp (let '(_, _) := ?x in _) => destruct x
+  | |- r2e_hkp (match ?x with _ => _ end) => destruct x
+  | |- r2e_hkp (if ?x then _ else _) => destruct x
+  end.
+Ltac r2e_hk_tac := repeat r2e_hk_step.
+Ltac r2e_hk_same_mod := apply r2e_hkp_modify_same; intros ?; split; reflexivity.
+
+Lemma r2e_hkp_tbl_addM : forall tid e, r2e_hkp (tbl_addM tid e).
+Proof.
+  intros tid e. unfold tbl_addM. apply r2e_hkp_getT_k. intros t s Ht.
+  pose proof (r2e_arch_add t e) as E. destruct (tbl_add t e) as [idx t']. cbn [snd] in E.
+  apply r2e_hk_bind_s; [apply (r2e_hk_setT s tid t t' Ht E)|]. intros _. r2e_hk_tac.
+Qed.
+
+Lemma r2e_hkp_remove_row : forall tid row, r2e_hkp (remove_row tid row).
+Proof.
+  intros tid row. unfold remove_row. apply r2e_hkp_getT_k. intros t s Ht.
+  pose proof (r2e_arch_remove t row) as E. destruct (tbl_remove t row) as [sw t']. cbn [snd] in E.
+  apply r2e_hk_bind_s; [apply (r2e_hk_setT s tid t t' Ht E)|]. intros _. r2e_hk_tac. r2e_hk_same_mod.
+Qed.
+
+Lemma r2e_hkp_copy_row : forall old new m row nidx, r2e_hkp (copy_row old new m row nidx).
+Proof. intros. unfold copy_row. r2e_hk_tac. apply r2e_hkp_modT. intros; reflexivity. Qed.
+
+Lemma r2e_hkp_copy_all : forall src dst row nidx, r2e_hkp (copy_all src dst row nidx).
+Proof. intros. unfold copy_all. r2e_hk_tac. apply r2e_hkp_modT. intros; reflexivity. Qed.
+
+Lemma r2e_hkp_move_entities : forall src dst n, r2e_hkp (move_entities src dst n).
+Proof.
+  intros src dst n. unfold move_entities. apply r2e_hkp_bind; [apply r2e_hkp_ro, readonly_getT|]. intros st.
+  apply r2e_hkp_getT_k. intros dt s Ht.
+  apply r2e_hk_bind_s; [apply (r2e_hk_setT s dst dt _ Ht (r2e_arch_add_all dt st n))|]. intros _.
+  r2e_hk_tac; [r2e_hk_same_mod|apply r2e_hkp_modT; intros; reflexivity].
+Qed.
+
+Lemma r2e_hkp_set_index : forall id v, r2e_hkp (set_index id v).
+Proof.
+  intros id v. unfold set_index. apply r2e_hkp_modify_same. intros s. destruct (Nat.eqb id (length (w_index s))); split; reflexivity.
+Qed.
+Lemma r2e_hkp_set_index_direct : forall e tid row, r2e_hkp (set_index_direct e tid row).
+Proof. intros. unfold set_index_direct. r2e_hk_same_mod. Qed.
+Lemma r2e_hkp_pool_getM : r2e_hkp pool_getM.
+Proof.
+  intros s. unfold pool_getM, bind, get, put, ret. destruct (pool_get (w_pool s)) as [e p']. cbn [state_of].
+  apply r2e_hk_same; reflexivity.
+Qed.
+Lemma r2e_hkp_pool_recycleM : forall e, r2e_hkp (pool_recycleM e).
+Proof.
+  intros e s. unfold pool_recycleM, bind, get, put, fail. destruct (pool_recycle (w_pool s) e); cbn [state_of];
+    apply r2e_hk_same; reflexivity.
+Qed.
+Lemma r2e_hkp_register_targets : forall rels, r2e_hkp (register_targets rels).
+Proof. intros. unfold register_targets. r2e_hk_tac. r2e_hk_same_mod. Qed.
+Lemma r2e_hkp_cache_add_table : forall tid t am, r2e_hkp (cache_add_table tid t am).
+Proof. intros. unfold cache_add_table. r2e_hk_tac. r2e_hk_same_mod. Qed.
+Lemma r2e_hkp_cache_remove_table : forall tid, r2e_hkp (cache_remove_table tid).
+Proof. intros. unfold cache_remove_table. r2e_hk_tac. r2e_hk_same_mod. Qed.
+
+(** archetype-level updates keep the number of relation components *)
+Lemma r2e_numrel_add_table : forall a tid t, a_numrel (arch_add_table a tid t) = a_numrel a.
+Proof.
+  intros. unfold arch_add_table. destruct (negb (arch_has_rels a)); [reflexivity|].
+  destruct (r2_atc_fields tid (t_kinds t) (t_targets t) 0 (a <| a_tables ::= fun l => l ++ [tid] |>)) as (_ & _ & _ & _ & _ & E & _).
+  exact E.
+Qed.
+
+Lemma r2e_hkp_create_table : forall aid rels, r2e_hkp (create_table aid rels).
+Proof.
+  intros aid rels. unfold create_table. r2e_hk_tac.
+  all: try apply r2e_hkp_register_targets; try apply r2e_hkp_cache_add_table.
+  all: try solve [apply r2e_hkp_ro; unfold check_rel; ro].
+  all: try (apply r2e_hkp_modA; intros ?; first [reflexivity|apply r2e_numrel_add_table]).
+  all: try (apply r2e_hkp_modT; intros ?; reflexivity).
+  (* the fresh table is appended *)
+  intros s0. unfold modify. cbn [state_of]. split.
+  - intros tid t Ht. exists t. cbn. split; [apply sa_nth_error_snoc_old; exact Ht|reflexivity].
+  - intros i b Hb Hn. left. exists b. auto.
+Qed.
+
+(** createArchetype (as repaired): the new archetype either has relation components, or its table was
+    appended to the table list before anything could fail. *)
+Lemma r2e_hkp_create_archetype : forall m, r2e_hkp (create_archetype m).
+Proof.
+  intros m s. unfold create_archetype.
+  set (comps := mk_to_list m (length (w_reg s))).
+  set (isrel := map (fun c => ck_rel (kind_of s c)) comps).
+  set (numrel := length (filter (fun b : bool => b) isrel)).
+  set (a0 := {| a_mask := m; a_comps := comps; a_isrel := isrel; a_tables := []; a_free := [];
+                a_reltabs := map (fun _ => []) comps; a_tgttabs := []; a_numrel := numrel |}).
+  set (aid := length (w_archs s)).
+  set (s1 := s <| w_archs ::= fun l => l ++ [a0] |>
+               <| w_compindex ::= fun ci => fold_left (fun ci c => updf c (fun l => l ++ [aid]) ci) comps ci |>
+               <| w_archcount ::= fun ac => fold_left (fun ac c => updf c S ac) comps ac |>
+               <| w_version ::= fun v => N.modulo (v + N.of_nat (length comps)) 4294967296 |>
+               <| w_relarchs ::= fun l => if Nat.eqb numrel 0 then l else l ++ [aid] |>).
+  assert (E1 : create_archetype_bare m s = Ok aid s1) by reflexivity.
+  assert (Ha0 : nth_error (w_archs s1) aid = Some a0) by (unfold s1, aid; cbn; apply sa_nth_error_snoc_new).
+  rewrite (sa_bind_ok E1), (sa_bind_ok (sa_getA_eq _ _ _ Ha0)).
+  (* the frame of the archetype step alone, for a new archetype that has a table or relation components *)
+  assert (Hbase : forall s', r2e_tmono s1 s' ->
+            (forall i b, nth_error (w_archs s') i = Some b -> a_numrel b = 0 ->
+               (exists b0, nth_error (w_archs s1) i = Some b0 /\ a_numrel b0 = 0) \/ r2e_has_table s' i) ->
+            (numrel = 0 -> r2e_has_table s' aid) -> r2e_hk s s').
+  { intros s' HM HA HT. split.
+    - intros tid t Ht. apply HM. exact Ht.
+    - intros i b Hb Hn. destruct (HA i b Hb Hn) as [(b0 & Hb0 & Hn0)|Htab]; [|right; exact Htab].
+      unfold s1 in Hb0. cbn in Hb0. apply sa_nth_error_snoc in Hb0. destruct Hb0 as [[_ Hb0]|[Ei Eb]].
+      + left. exists b0. auto.
+      + right. subst i b0. apply HT. exact Hn0. }
+  change (a_numrel a0) with numrel. destruct (Nat.eqb_spec numrel 0) as [Hz|Hnz].
+  - (* the table is created *)
+    assert (E2 : state_of (((_ <- create_table aid [] ;; ret tt) ;;; ret aid) s1) = state_of (create_table aid [] s1)).
+    { unfold bind. destruct (create_table aid [] s1); reflexivity. }
+    rewrite E2. rewrite r2_create_table_unfold.
+    rewrite (sa_bind_ok (sa_getA_eq _ _ _ Ha0)). change (a_numrel a0) with numrel. rewrite Hz.
+    cbn [length Nat.ltb Nat.leb negb guard]. rewrite (sa_bind_ok (m := ret tt) (s := s1) eq_refl).
+    cbn [rels_distinct guard]. rewrite (sa_bind_ok (m := ret tt) (s := s1) eq_refl).
+    cbn [place_targets of_opt]. rewrite (sa_bind_ok (m := ret _) (s := s1) eq_refl).
+    cbn [forM_]. rewrite (sa_bind_ok (m := ret tt) (s := s1) eq_refl).
+    unfold register_targets; cbn [forM_]. rewrite (sa_bind_ok (m := ret tt) (s := s1) eq_refl).
+    unfold r2_create_tail. rewrite (sa_bind_ok (m := get) (s := s1) eq_refl).
+    change (a_free a0) with (@nil nat). cbn [rev].
+    set (t := new_table aid a0 (map (kind_of s1) (a_comps a0)) (if arch_has_rels a0 then cf_caprel (w_cfg s1) else cf_cap (w_cfg s1))
+                (repeat zero_ent (length (a_comps a0))) []).
+    set (tid := length (w_tables s1)).
+    set (s2 := s1 <| w_tables ::= fun l => l ++ [t] |>).
+    assert (E3 : (modify (fun s0 : wstate => s0 <| w_tables ::= fun l => l ++ [t] |>) ;;; ret tid) s1 = Ok tid s2) by reflexivity.
+    rewrite (sa_bind_ok E3).
+    assert (T2 : nth_error (w_tables s2) tid = Some t) by (unfold s2, tid; cbn; apply sa_nth_error_snoc_new).
+    rewrite (sa_bind_ok (sa_getT_eq _ _ _ T2)).
+    (* from here on: archetype lists keep their relation counts, tables their archetype *)
+    assert (Htail : r2e_hkp (modA aid (fun a => arch_add_table a tid t) ;;; cache_add_table tid t (a_mask a0) ;;; ret tid)).
+    { r2e_hk_tac; [apply r2e_hkp_modA; intros ?; apply r2e_numrel_add_table|apply r2e_hkp_cache_add_table]. }
+    destruct (Htail s2) as (HM & HA).
+    apply Hbase.
+    + intros j x Hx. apply HM. unfold s2. cbn. apply sa_nth_error_snoc_old. exact Hx.
+    + intros i b Hb Hn. destruct (HA i b Hb Hn) as [H|H]; [left; exact H|right; exact H].
+    + intros _. destruct (HM tid t T2) as (t' & Ht' & Et'). exists tid, t'. split; [exact Ht'|]. rewrite Et'. reflexivity.
+  - (* relation components: nothing else happens *)
+    rewrite (sa_bind_ok (m := ret tt) (s := s1) eq_refl). unfold ret. cbn [state_of].
+    apply Hbase.
+    + apply r2e_tmono_refl.
+    + intros i b Hb Hn. left. exists b. auto.
+    + intros Hz. contradiction.
+Qed.
+
+Lemma r2e_hkp_find_or_create_arch : forall m, r2e_hkp (find_or_create_arch m).
+Proof.
+  intros m. unfold find_or_create_arch. apply r2e_hkp_getbind. intros s.
+  destruct (find_arch s m); [apply r2e_hk_refl|apply r2e_hkp_create_archetype].
+Qed.
+
+Lemma r2e_hkp_goc : forall aid rels, r2e_hkp (get_or_create_table aid rels).
+Proof.
+  intros. unfold get_or_create_table. r2e_hk_tac; [apply r2e_hkp_ro, r2e_ro_arch_get_table|apply r2e_hkp_create_table].
+Qed.
+
+Lemma r2e_hkp_find_add : forall old add rels m0, r2e_hkp (find_or_create_table_add old add rels m0).
+Proof.
+  intros. unfold find_or_create_table_add. r2e_hk_tac; try apply r2e_hkp_goc; try apply r2e_hkp_find_or_create_arch.
+  all: apply r2e_hkp_ro, r2e_ro_gf_add.
+Qed.
+Lemma r2e_hkp_find_remove : forall old rem m0, r2e_hkp (find_or_create_table_remove old rem m0).
+Proof.
+  intros. unfold find_or_create_table_remove. r2e_hk_tac; try apply r2e_hkp_goc; try apply r2e_hkp_find_or_create_arch.
+  all: apply r2e_hkp_ro, r2e_ro_gf_remove.
+Qed.
+Lemma r2e_hkp_find_exchange : forall old add rem rels m0, r2e_hkp (find_or_create_table old add rem rels m0).
+Proof.
+  intros. unfold find_or_create_table. r2e_hk_tac; try apply r2e_hkp_goc; try apply r2e_hkp_find_or_create_arch.
+  all: first [apply r2e_hkp_ro, r2e_ro_gf_add|apply r2e_hkp_ro, r2e_ro_gf_remove].
+Qed.
+
+(** event dispatch *)
+Lemma r2e_hkp_fire : forall evt early pred e eo, r2e_hkp (fire evt early pred e eo).
+Proof. intros. apply r2e_hkp_sp, sa_sp_fire. Qed.
+Lemma r2e_hkp_fire_create : forall e m, r2e_hkp (fire_create_entity_if_has e m).
+Proof. intros e m. apply r2e_hkp_sp. intros s. apply fire_create_entity_if_has_storage. Qed.
+Lemma r2e_hkp_fire_create_rel : forall e m, r2e_hkp (fire_create_entity_rel_if_has e m).
+Proof.
+  intros e m. apply r2e_hkp_sp. unfold fire_create_entity_rel_if_has, fire_create_entity_rel. sa_sp_tac; apply sa_sp_fire.
+Qed.
+Lemma r2e_hkp_fire_add : forall evt e o n, r2e_hkp (fire_add_if_has evt e o n).
+Proof. intros evt e o n. apply r2e_hkp_sp. intros s. apply fire_add_if_has_storage. Qed.
+Lemma r2e_hkp_fire_remove_events : forall e o n rr, r2e_hkp (fire_remove_events e o n rr).
+Proof. intros e o n rr. apply r2e_hkp_sp. intros s. apply fire_remove_events_storage. Qed.
+
+(** the entity operations *)
+Lemma r2e_hkp_new_entity : forall ids rels, r2e_hkp (new_entity ids rels).
+Proof.
+  intros. unfold new_entity. r2e_hk_tac.
+  all: first [apply r2e_hkp_find_add|apply r2e_hkp_pool_getM|apply r2e_hkp_tbl_addM|apply r2e_hkp_set_index|apply r2e_hkp_register_targets].
+Qed.
+
+Lemma r2e_hkp_create_entity : forall tid, r2e_hkp (create_entity tid).
+Proof.
+  intros. unfold create_entity. r2e_hk_tac.
+  all: first [apply r2e_hkp_pool_getM|apply r2e_hkp_tbl_addM|apply r2e_hkp_set_index|r2e_hk_same_mod].
+Qed.
+
+Lemma r2e_hkp_copy_entity : forall e, r2e_hkp (w_copy_entity e).
+Proof.
+  intros. unfold w_copy_entity. r2e_hk_tac.
+  all: first [apply r2e_hkp_pool_getM|apply r2e_hkp_tbl_addM|apply r2e_hkp_set_index|apply r2e_hkp_copy_all
+             |apply r2e_hkp_fire_create|apply r2e_hkp_fire_create_rel].
+Qed.
+
+Lemma r2e_hkp_w_add : forall e add rels, r2e_hkp (w_add e add rels).
+Proof.
+  intros. unfold w_add. r2e_hk_tac.
+  all: first [apply r2e_hkp_find_add|apply r2e_hkp_tbl_addM|apply r2e_hkp_copy_row|apply r2e_hkp_remove_row
+             |apply r2e_hkp_set_index_direct|apply r2e_hkp_register_targets].
+Qed.
+
+Lemma r2e_hkp_w_remove : forall e rem, r2e_hkp (w_remove e rem).
+Proof.
+  intros. unfold w_remove. r2e_hk_tac.
+  all: first [apply r2e_hkp_find_remove|apply r2e_hkp_tbl_addM|apply r2e_hkp_copy_row|apply r2e_hkp_remove_row
+             |apply r2e_hkp_set_index_direct|apply r2e_hkp_fire_remove_events].
+Qed.
+
+Lemma r2e_hkp_w_exchange : forall e add rem rels, r2e_hkp (w_exchange e add rem rels).
+Proof.
+  intros. unfold w_exchange. r2e_hk_tac.
+  all: first [apply r2e_hkp_find_exchange|apply r2e_hkp_tbl_addM|apply r2e_hkp_copy_row|apply r2e_hkp_remove_row
+             |apply r2e_hkp_set_index_direct|apply r2e_hkp_register_targets|apply r2e_hkp_fire_remove_events].
+Qed.
+
+Lemma r2e_hkp_w_set_relations : forall e rels, r2e_hkp (w_set_relations e rels).
+Proof.
+  intros e rels. unfold w_set_relations, fire_set. r2e_hk_tac.
+  all: first [apply r2e_hkp_ro, r2e_ro_exchange_targets|apply r2e_hkp_goc|apply r2e_hkp_tbl_addM|apply r2e_hkp_copy_all
+             |apply r2e_hkp_remove_row|apply r2e_hkp_set_index_direct|apply r2e_hkp_register_targets|apply r2e_hkp_fire
+             |apply r2e_hkp_sp, sa_sp_lockM|apply r2e_hkp_sp, sa_sp_unlockM].
+Qed.
+
+(** RemoveEntity with its cleanup; Shrink *)
+Lemma r2e_numrel_free_table : forall a tid, a_numrel (arch_free_table a tid) = a_numrel a.
+Proof. intros. apply (r2_aft_fields a tid). Qed.
+Lemma r2e_numrel_rft : forall tid kinds i targets a, a_numrel (remove_from_targets_cols tid i kinds targets a) = a_numrel a.
+Proof.
+  intros tid kinds. induction kinds as [|k ks IH]; intros i targets a; [reflexivity|].
+  destruct targets as [|tg tgs]; [reflexivity|]. cbn [remove_from_targets_cols]. rewrite IH. destruct (ck_rel k); reflexivity.
+Qed.
+
+Lemma r2e_hkp_free_table : forall aid tid, r2e_hkp (free_table aid tid).
+Proof.
+  intros. unfold free_table. r2e_hk_tac; [apply r2e_hkp_modA; intros; apply r2e_numrel_free_table|apply r2e_hkp_modT; intros; reflexivity].
+Qed.
+
+Lemma r2e_ro_etu : forall t rels, readonly (exchange_targets_unchecked t rels).
+Proof.
+  intros t rels. unfold exchange_targets_unchecked. apply readonly_bind; [|intros; apply readonly_ret].
+  generalize (t_targets t). induction rels as [|[c x] rest IH]; intros tg; [apply readonly_ret|].
+  destruct (tbl_colidx t c); [apply IH|apply readonly_fail].
+Qed.
+
+Lemma r2e_hkp_cleanup : forall e, r2e_hkp (cleanup_archetypes e).
+Proof.
+  intros e. unfold cleanup_archetypes. r2e_hk_tac.
+  all: first [apply r2e_hkp_ro, r2e_ro_etu|apply r2e_hkp_goc|apply r2e_hkp_move_entities|apply r2e_hkp_free_table
+             |apply r2e_hkp_cache_remove_table|apply r2e_hkp_modA; intros; reflexivity].
+Qed.
+
+Lemma r2e_hkp_remove_entity : forall e, r2e_hkp (storage_remove_entity e).
+Proof.
+  intros e. unfold storage_remove_entity, fire_remove_entity, fire_remove_entity_rel.
+  apply r2e_hkp_bind; [apply r2e_hkp_ro, readonly_get|]. intros s0.
+  apply r2e_hkp_bind; [apply r2e_hkp_ro, readonly_guard|]. intros _.
+  apply r2e_hkp_bind; [apply r2e_hkp_ro, readonly_get_index|]. intros [tid row].
+  apply r2e_hkp_bind; [apply r2e_hkp_ro, readonly_getT|]. intros t0.
+  apply r2e_hkp_bind; [apply r2e_hkp_ro, sc_ro_arch_mask|]. intros m.
+  apply r2e_hkp_bind.
+  { r2e_hk_tac. all: first [apply r2e_hkp_sp, sa_sp_lockM|apply r2e_hkp_sp, sa_sp_unlockM|apply r2e_hkp_fire]. }
+  intros _. apply r2e_hkp_getT_k. intros t s Ht.
+  pose proof (r2e_arch_remove t row) as E. destruct (tbl_remove t row) as [sw t']. cbn [snd] in E.
+  apply r2e_hk_bind_s; [apply (r2e_hk_setT s tid t t' Ht E)|]. intros _. r2e_hk_tac.
+  all: first [apply r2e_hkp_pool_recycleM|apply r2e_hkp_cleanup|r2e_hk_same_mod].
+Qed.
+
+Lemma r2e_hkp_any1 : forall idx any t s0, r2e_hkp (ResetShrinkProofs.r_any1 idx any t s0).
+Proof.
+  intros. unfold ResetShrinkProofs.r_any1. r2e_hk_tac.
+  all: first [apply r2e_hkp_modT; intros; reflexivity|apply r2e_hkp_free_table|apply r2e_hkp_cache_remove_table
+             |apply r2e_hkp_modA; intros; apply r2e_numrel_rft].
+Qed.
+
+Lemma r2e_hkp_go : forall stop0 fuel idx any, r2e_hkp (ResetShrinkProofs.r_go stop0 fuel idx any).
+Proof.
+  intros stop0 fuel. induction fuel as [|f IH]; intros idx any; cbn [ResetShrinkProofs.r_go]; [apply r2e_hkp_ro, readonly_ret|].
+  apply r2e_hkp_bind; [apply r2e_hkp_ro, readonly_getT|]. intros t.
+  apply r2e_hkp_getbind. intros s.
+  assert (X : r2e_hkp (any1 <- ResetShrinkProofs.r_any1 idx any t s;;
+    (if (any1 && stop0)%bool then ret (idx, any1) else match f with 0 => ret (idx, any1) | S _ => ResetShrinkProofs.r_go stop0 f (S idx) any1 end))).
+  { apply r2e_hkp_bind; [apply r2e_hkp_any1|]. intros any1.
+    destruct (any1 && stop0)%bool; [apply r2e_hkp_ro, readonly_ret|]. destruct f; [apply r2e_hkp_ro, readonly_ret|apply IH]. }
+  apply X.
+Qed.
+
+Lemma r2e_hkp_shrink : forall stop0, r2e_hkp (w_shrink stop0).
+Proof.
+  intros stop0 s. rewrite ResetShrinkProofs.r_shrink_eq. pose proof (r2e_hkp_go stop0 (length (w_tables s)) 0 false s) as H.
+  destruct (ResetShrinkProofs.r_go stop0 (length (w_tables s)) 0 false s); exact H.
+Qed.
+
+Lemma r2e_hkp_write_cell : forall tid ci row v, r2e_hkp (write_cell tid ci row v).
+Proof. intros. unfold write_cell. r2e_hk_tac. apply r2e_hkp_modT. intros; reflexivity. Qed.
+
+(** One covered operation keeps the frame, whatever its outcome. *)
+Theorem r2e_hkp_step_op : forall debug o, rel_core_op o = true -> r2e_hkp (step_op debug o).
+Proof.
+  intros debug o Hc. destruct o; cbn [rel_core_op] in Hc; try discriminate Hc; cbn [step_op]; r2e_hk_tac.
+  all: first [apply r2e_hkp_ro, readonly_resolveH|apply r2e_hkp_ro, readonly_resolveR|apply r2e_hkp_ro, sc_ro_cell_of
+             |apply r2e_hkp_create_entity|apply r2e_hkp_new_entity|apply r2e_hkp_copy_entity
+             |apply r2e_hkp_w_add|apply r2e_hkp_w_remove|apply r2e_hkp_w_exchange|apply r2e_hkp_w_set_relations
+             |apply r2e_hkp_remove_entity|apply r2e_hkp_shrink|apply r2e_hkp_write_cell
+             |apply r2e_hkp_fire_create|apply r2e_hkp_fire_create_rel|apply r2e_hkp_fire_add|idtac].
+Qed.
+
+(** Under the invariant the two readings of the clause agree. *)
+Lemma r2e_tabled_iff : forall s, St2 s -> (r2e_H s <-> archs_tabled_norel s).
+Proof.
+  intros s (HW & (HR & _) & _). split.
+  - intros H aid a Ha Hn. destruct (H aid a Ha Hn) as (tid & t & Ht & Et).
+    destruct (ri_listed _ _ HR tid t Ht) as (b & Hb & Hin). rewrite Et, Ha in Hb. injection Hb as <-.
+    destruct (ri_norel _ _ HR aid a Ha Hn) as (Hf & _). rewrite Hf in Hin.
+    destruct (t_free t); [destruct Hin|]. intros E. rewrite E in Hin. destruct Hin.
+  - intros H aid a Ha Hn. pose proof (H aid a Ha Hn) as Hne.
+    destruct (a_tables a) as [|tid tl] eqn:Et; [congruence|].
+    destruct (wf_arch_tables _ HW aid a tid Ha) as (t & Ht & Ea); [left; rewrite Et; left; reflexivity|].
+    exists tid, t. auto.
+Qed.
+
+Lemma r2e_hk_ext : forall s s1 s1', r2e_hk s s1 -> w_archs s1' = w_archs s1 -> w_tables s1' = w_tables s1 -> r2e_hk s s1'.
+Proof. intros s s1 s1' H EA ET. apply (r2e_hk_trans s s1 s1' H). apply r2e_hk_same; assumption. Qed.
+
+(** The invariant of the covered histories together with the clause. *)
+Definition Inv2T (s : W) (n : nat) : Prop := Inv2 s n /\ archs_tabled_norel s.
+
+Theorem step_tabled2 : forall debug wd s n line o,
+  Inv2 s n -> n + 4 < Nat.pow 2 31 -> decode_op line = Some o -> rel_core_op o = true ->
+  (forall c, In c (rel_op_ids o) -> c < length (w_reg s)) ->
+  archs_tabled_norel s -> archs_tabled_norel (fst (step debug wd s line)).
+Proof.
+  intros debug wd s n line o HI Hn Hd Hc Hreg HT.
+  destruct (step_inv2 debug wd s n line o HI Hn Hd Hc Hreg) as ((HS' & _) & _).
+  apply (r2e_tabled_iff _ HS'). apply (r2e_tabled_iff s (proj1 HI)) in HT.
+  refine (r2e_hk_H s _ _ HT).
+  rewrite (r2e_step_state debug wd s line o Hd Hc).
+  set (s0 := s <| w_log := [] |>).
+  assert (H0 : r2e_hk s s0) by (apply r2e_hk_same; reflexivity).
+  apply (r2e_hk_trans s s0 _ H0).
+  pose proof (r2e_hkp_step_op debug o Hc s0) as H1.
+  apply (r2e_hk_ext s0 _ _ H1); [|].
+  - unfold sc_issue. destruct (step_op debug o s0) as [[|i [|g rest]] s1|er s1]; try reflexivity. destruct (returns_entity o); reflexivity.
+  - unfold sc_issue. destruct (step_op debug o s0) as [[|i [|g rest]] s1|er s1]; try reflexivity. destruct (returns_entity o); reflexivity.
+Qed.
+
+Theorem step_inv2T : forall debug wd s n line o,
+  Inv2T s n -> n + 4 < Nat.pow 2 31 -> decode_op line = Some o -> rel_core_op o = true ->
+  (forall c, In c (rel_op_ids o) -> c < length (w_reg s)) ->
+  let s' := fst (step debug wd s line) in
+  Inv2T s' (S n) /\ w_reg s' = w_reg s.
+Proof.
+  intros debug wd s n line o (HI & HT) Hn Hd Hc Hreg. cbv zeta.
+  destruct (step_inv2 debug wd s n line o HI Hn Hd Hc Hreg) as (H1 & H2 & _).
+  split; [|exact H2]. split; [exact H1|]. apply (step_tabled2 debug wd s n line o HI Hn Hd Hc Hreg HT).
+Qed.
+
+Lemma r2e_tabled_init : forall c, archs_tabled_norel (init_world c).
+Proof. exact archs_tabled_init. Qed.
+
+Theorem reachable_inv2T : forall c lines,
+  cfg_ok2 c -> Forall (rel_core_line (length (sc_kinds c))) lines -> length lines + 4 < Nat.pow 2 31 ->
+  Inv2T (Properties.Common.exec c lines) (length lines).
+Proof.
+  intros c lines Hc. induction lines as [|l lines IH] using rev_ind; intros HF Hb.
+  - split; [apply r2e_init; exact Hc|apply archs_tabled_init].
+  - pose proof (reachable_inv2 c (lines ++ [l]) Hc HF Hb) as HI'. split; [exact HI'|].
+    apply Forall_app in HF. destruct HF as (HF & Hl). inversion Hl as [|? ? (o & Hd & Hco & Hids) _]; subst.
+    rewrite app_length in Hb. cbn [length] in Hb.
+    destruct IH as (IH1 & IH2); [exact HF|lia|].
+    destruct (r2e_run_inv c Hc lines HF) as (_ & Hregs); [lia|].
+    unfold Properties.Common.exec in *. rewrite fold_left_app. cbn [fold_left].
+    apply (step_tabled2 (sc_debug c) false _ (length lines) l o IH1); auto; try lia.
+    rewrite Hregs. exact Hids.
+Qed.
+
+(** Reset in a reachable state of a covered history: hypothesis (A) of [D_reset_spec] ("every archetype
+    without relation components has its table") is part of the invariant, so Reset succeeds. The class itself
+    still does not contain OReset: handles issued before a Reset may alias later entities
+    ([r2e_reset_refuted_handles]), so [issued_ok] does not survive it. *)
+Theorem r2e_reset_step : forall debug s n, Inv2T s n ->
+  exists s', step_op debug OReset s = Ok [] s' /\ St2 s' /\ r2d_KeysLive s' /\ is_locked s' = false /\
+    (forall e, live s' e = false) /\ w_reg s' = w_reg s.
+Proof. intros debug s n (HI & HT). exact (r2e_reset_step_partial debug s n HI HT). Qed.
+
+Theorem reachable_reset_succeeds : forall c lines,
+  cfg_ok2 c -> Forall (rel_core_line (length (sc_kinds c))) lines -> length lines + 4 < Nat.pow 2 31 ->
+  exists s', step_op (sc_debug c) OReset (Properties.Common.exec c lines) = Ok [] s' /\ St2 s' /\ r2d_KeysLive s' /\
+    is_locked s' = false /\ (forall e, live s' e = false) /\ w_reg s' = w_reg (Properties.Common.exec c lines).
+Proof. intros c lines Hc Hl Hb. exact (r2e_reset_step (sc_debug c) _ _ (reachable_inv2T c lines Hc Hl Hb)). Qed.
+
 (** ** Assumption audit *)
 Definition r2e_all :=
   (r2e_init, r2e_op_spec, step_inv2, creation_fresh2, reachable_inv2,
@@ -2434,5 +3028,6 @@ Definition r2e_all :=
    target_is_last_assigned_setrel, target_is_last_assigned_new, target_is_last_assigned_add,
    stale_handle_rejected2, r2e_reset_step_partial,
    r2e_remove_entity_spec, r2e_cleanup_spec, r2e_goc_any, r2e_add_any, r2e_exchange_any, r2e_new_entity_any,
-   r2e_KeysLive_E, r2e_script_inv, r2e_reset_refuted_handles, r2e_reset_refuted_table).
+   r2e_KeysLive_E, r2e_script_inv, r2e_reset_refuted_handles, r2e_reset_refuted_table,
+   r2e_hkp_step_op, r2e_tabled_iff, step_tabled2, step_inv2T, reachable_inv2T, r2e_reset_step, reachable_reset_succeeds).
 Print Assumptions r2e_all.
